@@ -965,5 +965,24 @@ V('C09', 'range-extended-for-the-observed-curve-only', 'fire', 'C09.R6', 'the up
   ('src/pyhf/infer/intervals/upper_limits.py', '    while np.any(np.asarray([upper_results[0]] + upper_results[1]) > level):', '    while np.any(np.asarray([upper_results[0]]) > level):'))
 V('C09', 'expected-bracket-column-off-by-one', 'fire', 'C09.R6', 'the bracket of expected curve k is chosen on curve k+1',
   ('src/pyhf/infer/intervals/upper_limits.py', 'value[0] - level if limit == 0 else value[1][limit - 1] - level', 'value[0] - level if limit == 0 else value[1][min(limit, 4)] - level'))
+V('C11', 'owned-interpolator-refreshed-in-one-arm-only', 'fire', 'C11.R1', 'the normsys interpolator is built with subscribe=False and refreshed by its owner only when the model is unbatched',
+  ('src/pyhf/modifiers/normsys.py', '                self._normsys_histoset\n            )\n', '                self._normsys_histoset, subscribe=False\n            )\n'),
+  ('src/pyhf/modifiers/normsys.py', '        if self.batch_size is None:\n            self.indices = tensorlib.reshape(\n                self.param_viewer.indices_concatenated, (-1, 1)\n            )\n', '        if self.batch_size is None:\n            self.indices = tensorlib.reshape(\n                self.param_viewer.indices_concatenated, (-1, 1)\n            )\n            self.interpolator._precompute()\n'))
+V('C11', 'owned-interpolator-refreshed-by-its-owner', 'silent', '', 'the normsys interpolator is built with subscribe=False and refreshed by its owner on every switch',
+  ('src/pyhf/modifiers/normsys.py', '                self._normsys_histoset\n            )\n', '                self._normsys_histoset, subscribe=False\n            )\n'),
+  ('src/pyhf/modifiers/normsys.py', '        self.normsys_default = tensorlib.ones(self.normsys_mask.shape)\n', '        self.normsys_default = tensorlib.ones(self.normsys_mask.shape)\n        self.interpolator._precompute()\n'))
+V('C17', 'schema-admits-sha512-and-digests-filtered', 'fire', 'C17.R6', 'the schema admits sha512 digests AND the digests property keeps only sha256 / md5',
+  ('src/pyhf/schemas/1.0.0/defs.json', '"sha256": { "type": "string", "pattern": "^[a-fA-F0-9]{64}$" }', '"sha256": { "type": "string", "pattern": "^[a-fA-F0-9]{64}$" },\n                    "sha512": { "type": "string", "pattern": "^[a-fA-F0-9]{128}$" }'),
+  ('src/pyhf/patchset.py', '        """The digests in the PatchSet metadata"""\n        return self.metadata[\'digests\']\n', '        """The digests in the PatchSet metadata"""\n        digests = self.metadata[\'digests\']\n        return {alg: digests[alg] for alg in (\'sha256\', \'md5\') if alg in digests}\n'))
+V('C17', 'schema-admits-sha512-only', 'silent', '', 'the schema admits sha512 digests (verification iterates over whatever is listed)',
+  ('src/pyhf/schemas/1.0.0/defs.json', '"sha256": { "type": "string", "pattern": "^[a-fA-F0-9]{64}$" }', '"sha256": { "type": "string", "pattern": "^[a-fA-F0-9]{64}$" },\n                    "sha512": { "type": "string", "pattern": "^[a-fA-F0-9]{128}$" }'))
+V('C17', 'digests-reordered-only', 'silent', '', 'the digests property lists sha256 before md5 (the schema admits nothing else)',
+  ('src/pyhf/patchset.py', '        """The digests in the PatchSet metadata"""\n        return self.metadata[\'digests\']\n', '        """The digests in the PatchSet metadata"""\n        digests = self.metadata[\'digests\']\n        return {alg: digests[alg] for alg in (\'sha256\', \'md5\') if alg in digests}\n'))
+V('C19', 'output-dir-default-computed-at-import', 'fire', 'C19.R7', 'json2xml --output-dir defaults to Path.cwd() evaluated at import',
+  ('src/pyhf/cli/rootio.py', "@click.option('--output-dir', type=click.Path(exists=True), default='.')\n", "@click.option('--output-dir', type=click.Path(exists=True), default=Path.cwd())\n"))
+V('C19', 'output-dir-default-callable', 'silent', '', 'json2xml --output-dir defaults to the callable Path.cwd',
+  ('src/pyhf/cli/rootio.py', "@click.option('--output-dir', type=click.Path(exists=True), default='.')\n", "@click.option('--output-dir', type=click.Path(exists=True), default=Path.cwd)\n"))
+V('C19', 'basedir-default-computed-at-import', 'fire', 'C19.R7', 'xml2json --basedir default computed at import (the defect repaired by 3a7e402)',
+  ('src/pyhf/cli/rootio.py', '    default=Path.cwd,\n', '    default=Path.cwd(),\n'))
 V("C13", "code4-exponent-mask-strict", "fire", "C13.R3", "code 4 takes exponent 1 (a constant) exactly at |alpha| = alpha0",
   ("src/pyhf/interpolators/code4.py", "            exponents >= self.__alpha0, exponents, self.ones", "            exponents > self.__alpha0, exponents, self.ones"))
